@@ -95,7 +95,8 @@ package mem
 //@   requires txnInv(t) && handler != nil && t.op < 1<<40
 //@   modifies t.op, t.results, elems(t.results), cancelled(t.ctx), t.released, held(t.store.mu)
 //@   ensures "one-result" id == old(t.op) && t.op == old(t.op) + 1 && len(t.results) == old(len(t.results)) + 1 && t.results[id].Op == id &&
-//@                        forall(i, 0, old(len(t.results)), t.results[i] == old(t.results[i]))
+//@                        forall(i, 0, old(len(t.results)), t.results[i] == old(t.results[i])) &&
+//@                        (ref(t.results) == old(ref(t.results)) || fresh(t.results))
 //@   ensures "aborted" implies(old(cancelled(t.ctx)), t.results[id].Record == nil && t.results[id].Err == ctxErr() &&
 //@                        t.released == old(t.released) && held(t.store.mu) == old(held(t.store.mu)))
 //@   ensures "hit" implies(!old(cancelled(t.ctx)) && in(path, dom(t.store.records)), t.results[id].Record == t.store.records[path] &&
@@ -112,7 +113,8 @@ package mem
 //@   requires txnInv(t) && t.op < 1<<40
 //@   modifies t.op, t.results, elems(t.results)
 //@   ensures "one-result" id == old(t.op) && t.op == old(t.op) + 1 && len(t.results) == old(len(t.results)) + 1 && t.results[id].Op == id &&
-//@                        forall(i, 0, old(len(t.results)), t.results[i] == old(t.results[i]))
+//@                        forall(i, 0, old(len(t.results)), t.results[i] == old(t.results[i])) &&
+//@                        (ref(t.results) == old(ref(t.results)) || fresh(t.results))
 //@   ensures "aborted" implies(cancelled(t.ctx), t.results[id].Record == nil && t.results[id].Err == ctxErr())
 //@   ensures "hit" implies(!cancelled(t.ctx) && in(path, dom(t.store.records)), t.results[id].Record == t.store.records[path] && t.results[id].Err == nil)
 //@   ensures "miss" implies(!cancelled(t.ctx) && !in(path, dom(t.store.records)), t.results[id].Record == nil && t.results[id].Err == hackpadfs.ErrNotExist)
@@ -127,7 +129,8 @@ package mem
 //@            srcCache(src).mode, oncedone(srcCache(src).modeOnce), srcCache(src).modTime, oncedone(srcCache(src).modTimeOnce)
 //@   ensures "src-kept" keyvalue.srcKept(src)
 //@   ensures "one-result" id == old(t.op) && t.op == old(t.op) + 1 && len(t.results) == old(len(t.results)) + 1 && t.results[id].Op == id &&
-//@                        forall(i, 0, old(len(t.results)), t.results[i] == old(t.results[i]))
+//@                        forall(i, 0, old(len(t.results)), t.results[i] == old(t.results[i])) &&
+//@                        (ref(t.results) == old(ref(t.results)) || fresh(t.results))
 //@   ensures "after-abort-no-effect" implies(old(cancelled(t.ctx)), t.results[id].Err == ctxErr() && sameAll(t.store) && world() == old(world()) &&
 //@                        t.released == old(t.released) && held(t.store.mu) == old(held(t.store.mu)))
 //@   ensures "delete" implies(!old(cancelled(t.ctx)) && src == nil, !in(path, dom(t.store.records)) && sameExcept(t.store, path))
@@ -151,7 +154,8 @@ package mem
 //@            srcCache(src).mode, oncedone(srcCache(src).modeOnce), srcCache(src).modTime, oncedone(srcCache(src).modTimeOnce)
 //@   ensures "src-kept" keyvalue.srcKept(src)
 //@   ensures "one-result" id == old(t.op) && t.op == old(t.op) + 1 && len(t.results) == old(len(t.results)) + 1 && t.results[id].Op == id &&
-//@                        forall(i, 0, old(len(t.results)), t.results[i] == old(t.results[i]))
+//@                        forall(i, 0, old(len(t.results)), t.results[i] == old(t.results[i])) &&
+//@                        (ref(t.results) == old(ref(t.results)) || fresh(t.results))
 //@   ensures "after-abort-no-effect" implies(cancelled(t.ctx), t.results[id].Err == ctxErr() && sameAll(t.store))
 //@   ensures "delete" implies(!cancelled(t.ctx) && src == nil, t.results[id].Err == nil && !in(path, dom(t.store.records)) && sameExcept(t.store, path))
 //@   ensures "data-error" implies(!cancelled(t.ctx) && src != nil && old(srcDataErr(src)) != nil, t.results[id].Err == old(srcDataErr(src)) && sameAll(t.store))
